@@ -184,7 +184,11 @@ func hmExecDelete(hm *HashMap, values []r.Element) (r.Element, error) {
 		for idx, vk := range hm.keyOrder {
 			// if found, delete item from keyOrder to stop loop
 			if vk == keyName {
-				hm.keyOrder = append(hm.keyOrder[:idx], hm.keyOrder[idx+1:]...)
+				// (into a new array: a loop that is walking the dictionary holds the old
+				// one, and shifting the keys in place would make it skip the next entry
+				// and visit the last one twice)
+				hm.keyOrder = append(append([]string{}, hm.keyOrder[:idx]...), hm.keyOrder[idx+1:]...)
+				break
 			}
 		}
 		return val, nil
